@@ -471,7 +471,50 @@ class Enumerator:
                                  lambda: Ev("cond", st.test, False, "loop"),
                                  can_exit_by_test=(ct is not True))
 
+    def _const_iter(self, st):
+        """elements of a loop over a small constant sequence (literal, class/module constant, enumerate of one) or None"""
+        it = st.iter
+        enum = False
+        if isinstance(it, ast.Call) and isinstance(it.func, ast.Name) and it.func.id == "enumerate" and len(it.args) == 1 and not it.keywords:
+            it, enum = it.args[0], True
+        vals = None
+        if isinstance(it, (ast.Tuple, ast.List)) and all(isinstance(e, ast.Constant) for e in it.elts):
+            vals = [e.value for e in it.elts]
+        elif self.prog is not None and self.cls is not None and isinstance(it, (ast.Attribute, ast.Name)):
+            from .model import NOCONST
+            v = self.prog.const_eval(it, self.cls.mod, self.cls)
+            if v is not NOCONST and isinstance(v, (list, tuple)) and all(isinstance(x, (int, str, float, bool, type(None))) for x in v):
+                vals = list(v)
+        if vals is None or not (0 < len(vals) <= 8) or st.orelse:
+            return None
+        if any(isinstance(n, (ast.Break,)) for n in ast.walk(st)):
+            return None
+        if enum:
+            if not (isinstance(st.target, ast.Tuple) and len(st.target.elts) == 2):
+                return None
+            return [(i, v) for i, v in enumerate(vals)], True
+        return vals, False
+
     def _for(self, st):
+        ci = self._const_iter(st)
+        if ci is not None:
+            vals, enum = ci
+            stmts = []
+            for v in vals:
+                if enum:
+                    val = ast.Tuple(elts=[ast.Constant(value=v[0]), ast.Constant(value=v[1])], ctx=ast.Load())
+                else:
+                    val = ast.Constant(value=v)
+                asg = ast.copy_location(ast.Assign(targets=[st.target], value=val), st)
+                ast.fix_missing_locations(asg)
+                stmts.append(asg)
+                stmts.extend(st.body)
+            paths = self.block(stmts)
+            for p in paths:
+                if p.term == "continue":
+                    p.term = "fall"   # (only reachable for the last element; earlier `continue`s are not supported)
+            if not any(isinstance(n, ast.Continue) for n in ast.walk(st)):
+                return paths
         rais = self._raising(st.iter, Ev("for", st, "iter"))
         return rais + self._loop(st, lambda: Ev("for", st, "iter"), lambda: Ev("for", st, "exhaust"), True)
 
